@@ -173,7 +173,9 @@ def mk_readset(reads, alleles=None):
     for i, (sid, ps) in enumerate(reads):
         r = Read(f"r{i}", 60, 0, sid)
         for p in ps:
-            r.add_variant(p, 0, 30)
+            # alleles and qualities are irrelevant for connectivity: vary them, including quality 0 (base quality 0 with
+            # --no-reference, PQ 0 of a phased block used as a read): such a read still links the variants it covers
+            r.add_variant(p, (i + p) % 2, 0 if (i * 7 + p * 13) % 4 == 0 else 10 + (i * p) % 40)
         rs.add(r)
     return rs
 
